@@ -63,6 +63,11 @@ func genC02(g *G, n int, out io.Writer) {
 		fetch := g.coin(0.3)
 		c := C02Case{Op: "c02", Id: i, Path: p, Graph: gr, Focus: gr[f].Id, Fetch: fetch, Text: p.Render(), Prefixes: prefixes}
 		fillC02(&c)
+		if i%6 == 2 && i%5 != 4 {
+			// the same graph in a document that describes some nodes by two node objects with one @id, under a lone "@graph": the edges
+			// a path follows are those of the GRAPH, however the document spreads a node's statements
+			c.Data = gr.RenderSplit(g)
+		}
 		enc.Encode(c)
 	}
 	customSteps = false
